@@ -107,6 +107,59 @@ def late_node_cases(ctx, quick):
                                  'was added: order %s' % (r[1],), rep)
 
 
+def real_order_rewired(n, adj, k):
+    """the same graph, but the requirements of node k are registered twice: first a set that is withdrawn again
+    (remove_dependencies, what marking something as applied does), then the real ones"""
+    from django_evolution.utils.graph import DependencyGraph
+    g = DependencyGraph()
+    for i in range(n):
+        g.add_node('n%d' % i)
+    for x, ds in enumerate(adj):
+        for d in ds:
+            g.add_dependency('n%d' % x, 'n%d' % d)
+    for d in range(n):
+        if d != k:
+            g.add_dependency('n%d' % k, 'n%d' % d)       # to be withdrawn
+    g.remove_dependencies({'n%d' % k})                    # drops every pending requirement that names k
+    for x, ds in enumerate(adj):
+        for d in ds:
+            if x == k or d == k:
+                g.add_dependency('n%d' % x, 'n%d' % d)
+    try:
+        g.finalize()
+        order = [int(nd.key[1:]) for nd in g.get_ordered()]
+    except Exception as e:
+        return ('error', type(e).__name__)
+    return ('ok', order)
+
+
+def rewired_cases(ctx, quick):
+    """acyclic graphs one of whose nodes had its requirements withdrawn and registered again: every requirement in
+    force at finalize() holds in the order"""
+    done = 0
+    for n in (2, 3, 4):
+        for adj in graphs_exhaustive(n, False):
+            if not is_acyclic(n, adj) or not any(adj):
+                continue
+            for k in range(n):
+                if not adj[k] and not any(k in ds for ds in adj):
+                    continue
+                if quick and n == 4 and (done % 4):
+                    done += 1
+                    continue
+                done += 1
+                r = real_order_rewired(n, adj, k)
+                ctx.count('rewired:%s' % r[0])
+                ctx.case({'n': n, 'adj': adj, 'rewired': k}, nontrivial=True, sample_cap=3)
+                rep = {'kind': 'rewired', 'n': n, 'adj': adj, 'node': k, 'observed': list(r)}
+                if r[0] != 'ok':
+                    ctx.fail(None, 'an acyclic graph in which node %d had its requirements withdrawn and registered again '
+                             'cannot be ordered: %s' % (k, r[1]), rep)
+                elif not order_ok(n, adj, r[1]):
+                    ctx.fail(None, 'a requirement registered after an earlier one of the same node was withdrawn is not '
+                             'respected: order %s' % (r[1],), rep)
+
+
 def is_acyclic(n, adj):
     state = [0] * n
 
@@ -262,6 +315,7 @@ def run(ctx):
                         'OrderedDict order (read from the source; exercised end-to-end by the Evolver rig in C08/C17)']
     quick = ctx.tier == 'quick'
     late_node_cases(ctx, quick)
+    rewired_cases(ctx, quick)
     # ---- core: exhaustive + random -----------------------------------------
     reqs, cases = [], []
     for n, loops in ((1, True), (2, True), (3, True), (4, False)):
@@ -376,6 +430,10 @@ def replay(ctx, obj):
     if r.get('kind') == 'late':
         real = real_order_late(r['n'], r['adj'], set(r['late']))
         print('graph n=%d adj=%r late=%r -> %r' % (r['n'], r['adj'], r['late'], real))
+        return 0 if real[0] == 'ok' and order_ok(r['n'], r['adj'], real[1]) else 1
+    if r.get('kind') == 'rewired':
+        real = real_order_rewired(r['n'], r['adj'], r['node'])
+        print('graph n=%d adj=%r rewired node=%r -> %r' % (r['n'], r['adj'], r['node'], real))
         return 0 if real[0] == 'ok' and order_ok(r['n'], r['adj'], real[1]) else 1
     if r.get('kind') == 'units':
         real = real_batches(r['units'])
